@@ -345,7 +345,23 @@ def get_strategy_base():
                 ref = sum(q * p for q, p in rows) / sum(q for q, _ in rows)
                 lo = min(min(p for _, p in rows), float(self.price))
                 hi = max(max(p for _, p in rows), float(self.price))
+                inside = None
+                if (self._plan or {}).get('style') == 'ladder' and len(rows) > 1 and pr.get('p_sl_inside_ladder', 0.0) > 0 \
+                        and pr['sl_rows'] > 0 and self._uu('go', 'sl_inside', 1.0) < pr['p_sl_inside_ladder']:
+                    # a stop between the first row to fill and the planned average entry: on its proper side of
+                    # the price the position is actually opened at, but not of the average of the declared points
+                    first = max(p for _, p in rows) if side == 'long' else min(p for _, p in rows)
+                    if abs(first - ref) > 2 * self._tick():
+                        steps = int(round(abs(first - ref) / self._tick()))
+                        dk = 1 + int(self._uu('go', 'sl_inside_dk', 0.0) * max(1, steps - 1)) % max(1, steps - 1)
+                        inside = self._lat(first, -dk if side == 'long' else dk)
                 for kind in ('sl', 'tp'):
+                    if kind == 'sl' and inside is not None:
+                        self.stop_loss = (float(qty), inside)
+                        self._decl['sl'] = [(float(qty), inside)]
+                        self._decl_at['sl'] = self._c.seq
+                        self._c.count('declared_sl_inside_ladder')
+                        continue
                     # a wrong-side row declared before the entry is replaced by jesse with a PLAIN market order of the
                     # row's size; it is only explored where that order closes the position exactly (single market
                     # entry, this the only exit row of the program) - anything else flips the position back and forth
@@ -386,6 +402,7 @@ def get_strategy_base():
         # ------------------------------------------------------------------ position events
         def on_open_position(self, order):
             self._enter_hook('open')
+            self._c.dispatch('open_hook_entered', self)     # before the program itself submits anything
             pr = self._prog
             if pr.get('p_hook_market', 0.0) > 0 and not pr.get('inert') and self._uu('open', 'hm', 1.0) < pr['p_hook_market']:
                 # a plain market order submitted in reaction to the opening fill (scale out a part at once)
@@ -399,6 +416,12 @@ def get_strategy_base():
             if self.exchange_type == 'spot' or not pr['exit_in_go']:
                 if self._uu('open', 'set_exits', 0.0) < pr['p_exits_on_open']:
                     self._declare_exits('open')
+            elif pr.get('p_refine_on_open', 0.0) > 0 and self._uu('open', 'refine', 1.0) < pr['p_refine_on_open']:
+                # exits were declared in go_long/go_short; refine them now that the real entry price is known
+                which = tuple(k for k in ('sl', 'tp') if self._decl[k] is not None)
+                if which:
+                    self._declare_exits('open', which)
+                    self._c.count('exits_refined_on_open')
             self._observe('on_open_position', str(order.id))
 
         def on_increased_position(self, order):
@@ -621,6 +644,8 @@ def gen_program(st, exchange_type, profile=None):
         'raise_at': None,
         'p_withdraw': st.choice([0.0, 0.0, 0.02], 'p_withdraw'),
         'p_hook_market': st.choice([0.0, 0.0, 0.3], 'p_hook_market'),
+        'p_sl_inside_ladder': st.choice([0.0, 0.3], 'p_sil'),
+        'p_refine_on_open': st.choice([0.0, 0.5], 'p_roo'),
         'ohlc_entries': st.chance(0.3, 'ohlc'),
         'data_gate': st.chance(0.3, 'dgate'),
     }
